@@ -343,7 +343,7 @@ func (op LinearQuantizer) Op_instruction_verilog_extra_modules(arch *Arch, flavo
 	result += "\n"
 	result += "endmodule\n"
 
-	moduleNames := []string{moduleName}
+	moduleNames := []string{moduleName + "_" + op.lqName}
 	moduleCodes := []string{result}
 
 	if op.opType == LQDIV || op.opType == LQMULT {
